@@ -114,7 +114,7 @@ def universal_call(c, call, hist_calls, bibs, float_heights=False):
         out.append(V('stage-only-moves-forward', ['stage-regressed', stage0, c.state], case, [stage0, c.state]))
     if lvl0 == 3:
         out.append(V('nothing-after-finished-or-drawn', ['accepted-when-decided', op, stage0], case, c.state))
-    if op == 'add' and stage0 != 'scheduled':
+    if op.split(':')[0] == 'add' and stage0 != 'scheduled':
         out.append(V('accepted-exactly-when-allowed', ['wrongly-accepted', op, stage0, 'athletes join only before the first height'],
                      case, 'accepted', 'RuleViolation'))
     if op == 'bar' and stage0 != 'jumpoff' and len(c.heights) >= 2 and Decimal(str(c.heights[-1])) <= Decimal(str(c.heights[-2])):
@@ -151,7 +151,9 @@ def tail_call(c, bibs, draw):
         last = Decimal(str(c.heights[-1])) if c.heights else FIRST
         return ('bar', [last + STEP, last, last - STEP, last + 2 * STEP][draw(4)])
     if k == 9 and draw(3) == 0:
-        return ('add', [999 if isinstance(bibs[0], int) else 'Z', bibs[0]][draw(2)])
+        # (late joiners also with the optional keywords of a start-list entry: order, names, category ...)
+        return (['add', 'add', 'add:DNS', 'add:DQ', 'add:full', 'add:order', 'add:none'][draw(7)],
+                [999 if isinstance(bibs[0], int) else 'Z', bibs[0]][draw(2)])
     op = ['failed', 'failed', 'failed', 'cleared', 'cleared', 'retired', 'retired', 'passed'][draw(8)]
     return (op, bibs[draw(len(bibs))])
 
@@ -197,6 +199,10 @@ def alphabet(c, m, max_reg, max_total):
             calls.append((op, b))
     calls.append(('add', 999 if isinstance(m.order[0], int) else 'Z'))      # a new bib of the competition's own kind
     calls.append(('add', m.order[0]))
+    if m.stage != 'scheduled':
+        # a late entry carrying the optional keywords of a start-list entry is a late entry all the same
+        for v in ('DNS', 'DQ', 'full'):
+            calls.append(('add:' + v, 999 if isinstance(m.order[0], int) else 'Z'))
     return calls
 
 
